@@ -38,6 +38,7 @@ package traversalrecord
 //@   && (forall t *TraversalRecord :: old(isT(t)) ==> t.childSegments == old(t.childSegments) && (old(t.link) != nil ==> t.link != nil))
 //@   && (forall t *TraversalRecord, s datamodel.PathSegment :: old(isT(t)) && old(s in t.childSegments) ==> s in t.childSegments && t.childSegments[s] == old(t.childSegments[s]))
 //@   && (forall l *traversalLink :: old(isL(l)) ==> l.segment == old(l.segment) && l.TraversalRecord == old(l.TraversalRecord))
+//@   && (forall t ref :: old(recNodes[t]) ==> recNodes[t])
 
 //@ func TraversalRecord.RecordNextStep
 //@   requires isT(tr) && treeShape() && leavesLinkedBut(tr)
